@@ -391,6 +391,7 @@ pub fn run_input(input: &Value) -> Case {
         class,
         nontrivial,
         key: serde_json::to_string(&json!([input["mode"], input["ops"], input["ret"], input["sched"]])).unwrap(),
+        features: vec![],
     }
 }
 
